@@ -44,6 +44,7 @@ def gen_case(rng, tier):
     prof["stale_links"] = rng.choice([0, 0, 0.5])
     prof["multiblock"] = rng.choice([0, 0, 0.5])  # a function of several blocks (cf.cond_br / cf.br)
     prof["switches"] = rng.choice([0, 0, 0.4])  # two-way branches written as scf.index_switch
+    prof["const_conds"] = rng.random() < 0.3  # conditionals whose condition is a constant (true / false)
     prof["partial"] = rng.choice([0, 0, 0.4])  # setups that only write some of the fields
     prof["local_callee"] = rng.choice([0, 0, 0.5])  # calls to a function of the module that sets up an accelerator itself
     prof["while_loops"] = rng.choice([0, 0, 0.4])
